@@ -367,7 +367,9 @@ void vrt_arm(const vrt_opts *o, const void *main_desc){
   rng = (unsigned long long)O.seed * 2654435761ULL + 88172645463325252ULL; for (i = 0; i < 8; i++) rnd();
   for (i = 0; i < NW; i++){ sem_init(&sem[i], 0, 0); idle[i] = 0; }
   for (i = 0; i < NS_MAX; i++){ ids[i].n = 0; nalias[i] = 0; }
-  nonprogress = 0; stepno = 0; lowprio = 0; vsec = 1000; vnsec = 0;
+  nonprogress = 0; stepno = 0; lowprio = 0; vsec = 1000;
+  /* the virtual clock starts at a varying phase of its second, often close to the end (carries in deadline arithmetic) */
+  { static const long phase[4] = { 0, 400000000L, 999000000L, 999990000L }; vnsec = phase[rnd() % 4]; }
   for (i = 0; i < MAXW; i++) stall_until[i] = 0;
   for (i = 0; i < 128; i++) point_cnt[i] = 0;
   if (O.strategy == VRT_STRAT_PCT){
